@@ -89,7 +89,33 @@ Inductive outs_ok : N -> list token -> Prop :=
 Lemma outs_ok_mono b b' r : outs_ok b r -> b <= b' -> outs_ok b' r.
 Proof. intros H Hb. inversion H; subst; econstructor; eauto; lia. Qed.
 
-Definition INV (text : bytes) (l : lexer) : Prop := wf text l /\ outs_ok (l_base l) (l_out l).
+(* the tiling of the source by the top level tokens (C15 text_partition): the
+   state after the tokens sent so far; outside a block the next expected offset
+   is the base *)
+Definition tfoldr (r : list token) : option (N * bool) := fold_right (fun t st => tstep st t) (Some (0, false)) r.
+Definition tile_ok (b : N) (r : list token) : Prop :=
+  exists q inb, tfoldr r = Some (q, inb) /\ (inb = false -> q = b).
+Definition in_block (l : lexer) : Prop := exists q, tfoldr (l_out l) = Some (q, true).
+Definition out_block (l : lexer) : Prop := exists q, tfoldr (l_out l) = Some (q, false).
+
+Lemma tile_emit b r tok :
+  tile_ok b r ->
+  (t_len tok <> 0 -> t_start tok = b /\ t_end tok + 1 = b + t_len tok) ->
+  tile_ok (b + t_len tok) (tok :: r).
+Proof.
+  intros (q & inb & Hf & Hq) Ht. unfold tile_ok, tfoldr in *. simpl. rewrite Hf. unfold tstep.
+  destruct (N.eqb_spec (t_len tok) 0) as [Hz|Hz].
+  - exists q, inb. split; [reflexivity|]. intros H. rewrite Hz. rewrite (Hq H). lia.
+  - destruct (Ht Hz) as [Hs He]. destruct inb.
+    + destruct (is_close (t_typ tok)); [exists (t_end tok + 1), false; split; [reflexivity|intros _; lia]|].
+      exists q, true. split; [reflexivity|discriminate].
+    + rewrite (Hq eq_refl). rewrite Hs, N.eqb_refl.
+      destruct (is_open (t_typ tok)); [exists b, true; split; [reflexivity|discriminate]|].
+      exists (t_end tok + 1), false. split; [reflexivity|intros _; lia].
+Qed.
+
+Definition INV (text : bytes) (l : lexer) : Prop :=
+  wf text l /\ (outs_ok (l_base l) (l_out l) /\ tile_ok (l_base l) (l_out l)).
 
 Lemma wf_len text l : wf text l -> l_base l + len l = nlen text.
 Proof. intros [pre [-> ->]]. unfold len. rewrite nlen_app. reflexivity. Qed.
@@ -143,17 +169,17 @@ Proof. intros Hi. unfold idx. destruct (get_lt _ _ Hi) as [c Hc]. rewrite Hc. ea
 Lemma sget_ok s i : i < nlen s -> exists c, sget s i = Ok c /\ get s i = Some c.
 Proof. intros Hi. unfold sget. destruct (get_lt _ _ Hi) as [c Hc]. rewrite Hc. eauto. Qed.
 
+(* bytes may be skipped without a token only inside a block of code *)
 Lemma advance_spec text n l :
-  INV text l -> n <= len l ->
+  INV text l -> in_block l -> n <= len l ->
   exists l', advance n l = Ok l' /\ INV text l' /\ (l_base l' = l_base l + n /\ l_tidx l' = l_tidx l)
              /\ l_src l' = drop n (l_src l)
              /\ len l' = len l - n /\ l' = set_src (drop n (l_src l)) (l_base l + n) l.
 Proof.
-  intros [Hw Ho] Hn. unfold advance. destruct (N.ltb_spec (len l) n); [lia|].
-  eexists. split; [reflexivity|]. repeat split.
-  - apply wf_drop; assumption.
-  - simpl. eapply outs_ok_mono; [exact Ho|lia].
-  - unfold len. simpl. apply nlen_drop.
+  intros [Hw [Ho Hti]] [qb Hib] Hn. unfold advance. destruct (N.ltb_spec (len l) n); [lia|].
+  eexists. split; [reflexivity|]. split; [|split; [split; reflexivity|split; [reflexivity|split; [unfold len; simpl; apply nlen_drop|reflexivity]]]].
+  split; [apply wf_drop; assumption|]. simpl. split; [eapply outs_ok_mono; [exact Ho|lia]|].
+  exists qb, true. split; [exact Hib|discriminate].
 Qed.
 
 Lemma emit_at_spec text line col cd ld typ n l :
@@ -163,13 +189,16 @@ Lemma emit_at_spec text line col cd ld typ n l :
              /\ l_line l' = l_line l /\ l_col l' = l_col l /\ l_cdev l' = l_cdev l /\ l_ldev l' = l_ldev l
              /\ l_ctx l' = l_ctx l /\ l_ctxs l' = l_ctxs l.
 Proof.
-  intros [Hw Ho] Hn. unfold emit_at. destruct (N.ltb_spec (len l) n); [lia|].
+  intros [Hw [Ho Hti]] Hn. unfold emit_at. destruct (N.ltb_spec (len l) n); [lia|].
   set (ctx := if typ =? gen_tokenText then gen_ContextText else l_ctx l).
   destruct (N.eqb_spec n 0) as [->|Hn0].
   - (* empty token *)
     assert (Hlt : (0 <? 0) = false) by reflexivity. rewrite Hlt.
     destruct (N.eqb_spec typ gen_tokenSemicolon) as [->|Hts].
-    + eexists. split; [reflexivity|]. change (gen_tokenSemicolon =? gen_tokenRaw) with false.
+    + set (tok := mkTok gen_tokenSemicolon (l_base l - 1) (l_base l - 1) 0 line col (l_line l) ctx (l_tag l) (l_att l) cd ld).
+      assert (Htile : tile_ok (l_base l) (tok :: l_out l)).
+      { pose proof (tile_emit (l_base l) (l_out l) tok Hti) as H1. cbn in H1. rewrite N.add_0_r in H1. apply H1. intros C; contradiction. }
+      eexists. split; [reflexivity|]. change (gen_tokenSemicolon =? gen_tokenRaw) with false.
       change (gen_tokenSemicolon =? gen_tokenIdentifier) with false.
       change (gen_tokenSemicolon =? gen_tokenEnd) with false. cbn [l_src l_base l_out set_out set_tot l_line l_col l_cdev l_ldev l_ctx l_ctxs].
       rewrite N.add_0_r, !N.sub_0_r. repeat split; auto.
@@ -177,6 +206,8 @@ Proof.
     + set (tok := mkTok typ (l_base l) (l_base l) 0 line col (l_line l) ctx (l_tag l) (l_att l) cd ld).
       assert (Htok : outs_ok (l_base l) (tok :: l_out l)).
       { econstructor; [exact Ho| |cbn; lia]. unfold tok_at. cbn. split; [reflexivity|]. left. reflexivity. }
+      assert (Htile : tile_ok (l_base l) (tok :: l_out l)).
+      { pose proof (tile_emit (l_base l) (l_out l) tok Hti) as H1. cbn in H1. rewrite N.add_0_r in H1. apply H1. intros C; contradiction. }
       destruct (typ =? gen_tokenRaw); [destruct (_ =? gen_tokenStartStatement)|
         destruct (typ =? gen_tokenIdentifier); [cbn [l_raw set_out set_tot]; destruct (l_raw l); [destruct (_ =? gen_tokenRaw)|]|
         destruct (typ =? gen_tokenEnd)]];
@@ -185,6 +216,8 @@ Proof.
     set (tok := mkTok typ (l_base l) (l_base l + n - 1) n line col (l_line l) ctx (l_tag l) (l_att l) cd ld).
     assert (Htok : outs_ok (l_base l + n) (tok :: l_out l)).
     { econstructor; [exact Ho| |cbn; lia]. unfold tok_at. cbn. destruct (N.eqb_spec n 0); [lia|]. split; [reflexivity|lia]. }
+    assert (Htile : tile_ok (l_base l + n) (tok :: l_out l)).
+    { pose proof (tile_emit (l_base l) (l_out l) tok Hti) as H1. cbn in H1. apply H1. intros _. split; [reflexivity|lia]. }
     assert (Hw' : wf text (set_src (drop n (l_src l)) (l_base l + n) l)) by (apply wf_drop; assumption).
     destruct Hw' as [pre' [Hp1 Hp2]]. cbn in Hp1, Hp2.
     destruct (typ =? gen_tokenRaw); [destruct (_ =? gen_tokenStartStatement)|
